@@ -39,6 +39,9 @@ pub enum FaultKind {
     /// active one's, so it never becomes the record of its height), and the prev field of the stored block h names that
     /// sibling: a hash the index knows, at the right height - but not THE indexed hash of the preceding height
     PrevToSibling,
+    /// one bit of the version, time, bits or nonce field of the stored block 0 is flipped while its index record keeps
+    /// the genesis hash as key: the block read from disk no longer hashes to the published genesis hash
+    GenesisHeaderBit,
 }
 
 #[derive(Clone, Debug, Serialize, Deserialize)]
@@ -95,7 +98,7 @@ fn chain_cfg(tier: Tier, faults: bool) -> gen::ChainCfg {
 
 pub fn strategy(tier: Tier, faults: bool) -> BS<Case> {
     let fault = if faults {
-        (prop_oneof![4 => Just(FaultKind::TxBit), 3 => Just(FaultKind::MerkleBit), 3 => Just(FaultKind::PrevBit), 2 => Just(FaultKind::ForeignBlock), 2 => Just(FaultKind::Relinked), 2 => Just(FaultKind::PrevToSibling), 1 => Just(FaultKind::WrongGenesis), 1 => Just(FaultKind::SyntheticGenesis), 1 => Just(FaultKind::GenesisCopy)], any::<u16>(), any::<u32>()).prop_map(|(kind, h, bit)| Some(Fault { kind, h, bit, more: 0 })).boxed()
+        (prop_oneof![4 => Just(FaultKind::TxBit), 3 => Just(FaultKind::MerkleBit), 3 => Just(FaultKind::PrevBit), 2 => Just(FaultKind::ForeignBlock), 2 => Just(FaultKind::Relinked), 2 => Just(FaultKind::PrevToSibling), 1 => Just(FaultKind::GenesisHeaderBit), 1 => Just(FaultKind::WrongGenesis), 1 => Just(FaultKind::SyntheticGenesis), 1 => Just(FaultKind::GenesisCopy)], any::<u16>(), any::<u32>()).prop_map(|(kind, h, bit)| Some(Fault { kind, h, bit, more: 0 })).boxed()
     } else {
         Just(None).boxed()
     };
@@ -170,7 +173,7 @@ pub fn check(c: &Case) -> Verdict {
     let mut desc = String::from("none");
     if let Some(f) = &c.fault {
         let hi = match f.kind {
-            FaultKind::WrongGenesis | FaultKind::SyntheticGenesis => 0usize,
+            FaultKind::WrongGenesis | FaultKind::SyntheticGenesis | FaultKind::GenesisHeaderBit => 0usize,
             FaultKind::PrevBit | FaultKind::ForeignBlock | FaultKind::GenesisCopy => {
                 if n < 2 {
                     return Verdict::Pass(Pass::default());
@@ -244,6 +247,13 @@ pub fn check(c: &Case) -> Verdict {
                         bytes[4..36].copy_from_slice(&p);
                     }
                     desc = "prev field names a stale sibling (with data, in the index) of the preceding block".into();
+                }
+                FaultKind::GenesisHeaderBit => {
+                    // 16 bytes: version (0..4) and time / bits / nonce (68..80)
+                    let k = ((f.bit as u64 * 128) >> 32) as usize;
+                    let byte = if k / 8 < 4 { k / 8 } else { 64 + k / 8 };
+                    bytes[byte] ^= 1 << (k % 8);
+                    desc = format!("header byte {} bit {} of the stored block 0 (not merkle, not prev)", byte, k % 8);
                 }
                 FaultKind::WrongGenesis => desc = "another coin's genesis block at height 0".into(),
                 FaultKind::SyntheticGenesis => desc = "synthetic block at height 0".into(),
